@@ -15,6 +15,23 @@ Space (each part crossed fully inside the stated alphabets):
           x inlet sets {None, [], singletons, pairs}; Catchment.from_dict(to_dict()).
 Oracle: equality of the observable attributes (exact, bit level for cells); clip is
 compared in exact rational arithmetic on the float64 georeferencing.
+
+Size ladder (added; same oracles):
+  io-ladder   : strips 1xN / Nx1 for every N of the ladder 7..1025 (thorough ..4097, 10001) and grids NxN, Nx(N+1)
+          for N in 7..257 next to every power of two (thorough ..1025 and (N+1)xN); 2 dtypes per shape in rotation
+          over all 11; cells by named pattern ("ramp": all neighbours differ, type extremes at first / middle /
+          last cell, 64-bit integers beyond 2^53, NaN / -inf / -0.0 / max / subnormal for floats; "checker": two
+          extremes alternating) x {save -> 3 load routes, harness-written BYTEORDER M -> from_header, harness-written
+          BYTEORDER I -> from_stream, to_dict/from_dict, clone, clone(dtype), Catchment's copy} with independence
+  clip-ladder : 13 shapes (16..1025 cells a side; thorough 4097) x 2 dtypes x 3 geometries x 11 structured boxes
+          (whole grid, inner frame, corner cells, halves, window across the middle, all but the last row / column)
+          x 3 corner offsets; the whole clipped window is compared with the parent window
+  catch-ladder: flow grids converging on a sink (optionally with isolated pits = holes) of 16x16 .. 128x129 cells,
+          1x1025, 257x1 (thorough 257x257, 300x301, 1x10001) x 3 sinks x 5 outlets x inlets {None, [], 1, 2, 3 cells}:
+          delineated areas of up to 16512 cells through Catchment.to_dict / from_dict
+Layouts (added, differential): on every ladder shape the ramp cells are handed to the public data setter as Fortran-
+  ordered, strided, read-only, doubly reversed, big-endian, wider-dtype arrays and as a nested list; the grid, its
+  clone and its save -> from_header copy must hold the bits obtained from the C-contiguous array of the grid's dtype.
 """
 import itertools, math, os, shutil, tempfile, zipfile, io
 from fractions import Fraction
@@ -30,7 +47,12 @@ RULE = ("nested enumeration: (io) shape x 11 dtypes x every rotation of the dtyp
         "dictionary round trip. One case = one operation on one grid/catchment. Non-trivial: io - "
         "itemsize > 1 for BYTEORDER M, always otherwise; clip - at least one cell compared; catch - "
         "the catchment was delineated. Cases are produced once each by nested loops over distinct "
-        "coordinates (distinct by construction).")
+        "coordinates (distinct by construction). SIZE LADDER: one unit per shape (1xN, Nx1 for the ladder 7..1025, "
+        "NxN and Nx(N+1) for N in 7..257) x 2 dtypes (rotating over the 11) x {ramp, checker} cell patterns x 9 "
+        "load / dict / clone operations; 13 clip shapes x 2 dtypes x 3 geometries x 11 structured boxes x 3 offsets "
+        "(whole-window comparison); 8 flow-grid shapes x 3 sinks x pits x 5 outlets x 5 inlet sets for the catchment "
+        "dictionary; LAYOUTS: 7 memory layouts / containers of the cells through the data setter on every ladder "
+        "shape, followed by clone and save/from_header (differential).")
 ASSUMPTIONS = [
     "cells are written into a grid with grid.data[...] = values (no conversion); the public data setter is exercised through clip",
     "BYTEORDER M rasters are written by the harness (header in the key/value layout Grid.save uses plus a NODATA line, cells as big-endian bytes): Grid cannot hold a non-native dtype; the loaded grid must hold the same values in the native dtype of the same kind and width",
@@ -41,6 +63,8 @@ ASSUMPTIONS = [
     "catchment round trip compares outlet, inlets (None or the same integers in order), idxcells_area and idxcells_area_filled; flow-direction cell values are not part of the dictionary and not compared; catchments whose delineation raises are not judged",
     "temp files live in a per-unit directory and are removed after every case",
     "extension modules rebuilt from the working tree C sources; Cython wrapper C not re-translated",
+    "size ladder: cells of large grids are generated from a named pattern (recorded in the case instead of the bit list); clip on large grids compares whole windows: when the clipped cell size equals the parent's (float64 equality) all clipped centres share one fractional offset from the parent centres, which is computed in Fractions for cell (0,0); a changed cell size is counted unjudged",
+    "layout variants: the cells are given to the public data setter (grid.data = array) in another memory layout / container; values are converted only when exactly representable (wider dtype of the same kind); a nested list is judged only when numpy's own reading of the list reproduces the values (numpy reads a list that mixes small integers and integers >= 2^63 as float64); a layout the setter refuses with a Python exception is accepted and counted",
 ]
 TECHNIQUE = ("bounded exhaustive enumeration of grid configurations executed on the real Grid/Catchment "
              "classes; round-trip/differential oracle with exact integer/bit comparison and Fraction geometry")
@@ -223,6 +247,15 @@ def units(tier, seed):
             for c1 in CODES:
                 us.append({"kind": "catch", "shape": [2, 3], "prefix": [c0, c1], "inlets": "few"})
     us.append({"kind": "catchring", "tier": tier})
+    # size ladder
+    for i, sh in enumerate(ladder_shapes(tier)):
+        dts = [LADDER_DTYPES[(2 * i) % len(LADDER_DTYPES)], LADDER_DTYPES[(2 * i + 1) % len(LADDER_DTYPES)]]
+        us.append({"kind": "io-ladder", "shape": list(sh), "dtypes": dts, "index": i, "seed": seed})
+    for i, sh in enumerate(CLIP_LADDER + (CLIP_LADDER_THOROUGH if tier != "quick" else [])):
+        dts = [LADDER_DTYPES[(3 * i) % len(LADDER_DTYPES)], LADDER_DTYPES[(3 * i + 4) % len(LADDER_DTYPES)]]
+        us.append({"kind": "clip-ladder", "shape": list(sh), "dtypes": dts, "seed": seed})
+    for sh in CATCH_LADDER + (CATCH_LADDER_THOROUGH if tier != "quick" else []):
+        us.append({"kind": "catch-ladder", "shape": list(sh)})
     return us
 
 
@@ -235,14 +268,20 @@ def bound_text(tier, seed):
             "+ dict + clone; geometry: %d cellsizes x %d x %d origins %s for float64/int16; clip: every "
             "corner-cell pair x 3 offsets on %s resolvable geometries; catchments: all 9^3 1x3 and 9^4 2x2 "
             "direction grids x every outlet x inlets {None, [], singles, pairs}%s; 3x3/4x4 ring catchments "
-            "with holes, <= %d deviations" % (
+            "with holes, <= %d deviations; size ladder: io on %d shapes (1xN, Nx1, N in %s; NxN, Nx(N+1)%s, N in %s) x 2 dtypes "
+            "x {ramp, checker} x 9 operations + 7 setter layouts; clip on %s x 2 dtypes x 3 geometries x 11 boxes x 3 offsets; "
+            "catchment dictionaries of areas delineated on flow grids %s" % (
                 tier, shapes(tier), len(cs), len(xs), len(ys),
                 "(<= 2 deviations from (1,0,0))" if tier == "quick" else "(full cross)",
                 ("%d" % len(clip_geoms(False, seed))) if tier == "quick" else
                 ("%d (all dtypes, also shapes 3x1, 4x3, 2x5) and the full %d-triple cross (float64, int64) of" % (
                     len(clip_geoms(False, seed)), len(clip_geoms(True, seed)))),
                 "" if tier == "quick" else "; all 9^6 2x3 grids x every outlet x inlets {None, [], one single}",
-                1 if tier == "quick" else 2))
+                1 if tier == "quick" else 2, len(ladder_shapes(tier)),
+                LADDER + (LADDER_THOROUGH if tier != "quick" else []), "" if tier == "quick" else ", (N+1)xN",
+                SQUARES + (SQUARES_THOROUGH if tier != "quick" else []),
+                CLIP_LADDER + (CLIP_LADDER_THOROUGH if tier != "quick" else []),
+                CATCH_LADDER + (CATCH_LADDER_THOROUGH if tier != "quick" else [])))
 
 
 # --------------------------------------------------------------------- helpers
@@ -270,9 +309,55 @@ def make_grid(Grid, case):
     csz, xll, yll = case["geom"]
     nd = from_bits([case["nodata"]], case["dtype"])[0]
     g = Grid("Gr_A", nc, nr, cellsize=csz, xllcorner=xll, yllcorner=yll, dtype=dt.type, nodata=nd)
-    cells = from_bits(case["bits"], case["dtype"], (nr, nc))
+    if "bits" in case:
+        cells = from_bits(case["bits"], case["dtype"], (nr, nc))
+    else:
+        cells = pattern_cells(case["pattern"], case["dtype"], nr, nc)      # size ladder: structured cells by name
     g.data[...] = cells
     return g, cells, nd
+
+
+RAMP_MOD = {1: 127, 2: 32749, 4: 2147483629, 8: 2147483629}        # primes: never aligned with a row length
+
+
+def pattern_cells(pattern, dtname, nr, nc):
+    """structured cells of a large grid (deterministic, generated from the case instead of stored in it).
+    ramp   : neighbours differ in every direction (a shifted / transposed / truncated raster shows), the type's
+             extremes at the first, middle and last cells; 64-bit integers run beyond 2^53, floats hold a NaN,
+             -inf and -0.0
+    checker: two extreme values alternating (tie-rich)"""
+    dt = np.dtype(dtname)
+    n = nr * nc
+    i = np.arange(n, dtype=np.int64)
+    if dt.kind in "iu":
+        ii = np.iinfo(dt)
+        if pattern == "ramp":
+            P = RAMP_MOD[dt.itemsize]
+            v = (i * 7 + 3) % P
+            if dt.itemsize == 8:
+                v = v * (2 ** 31 + 11) + (2 ** 53 + 1)
+            if dt.kind == "i":
+                v = np.where(i % 3 == 1, -v, v)
+            a = v.astype(dt)
+            a[0], a[n // 2], a[-1] = ii.min, ii.max - 1, ii.max
+        elif pattern == "checker":
+            r, c = np.divmod(i, nc)
+            a = np.where((r + c) % 2 == 0, np.array(ii.max, dtype=dt), np.array(ii.min + 1, dtype=dt)).astype(dt)
+        else:
+            raise ValueError(pattern)
+    else:
+        fi = np.finfo(dt)
+        if pattern == "ramp":
+            a = (((i * 7 + 3) % 1021) * 0.25 - 100.0).astype(dt)           # exact in float16
+            a[0], a[n // 2], a[-1] = -0.0, np.nan, -np.inf
+            if n > 4:
+                a[1], a[n - 2] = fi.max, fi.smallest_subnormal
+        elif pattern == "checker":
+            r, c = np.divmod(i, nc)
+            a = np.where((r + c) % 2 == 0, np.array(0.1, dtype=dt), np.array(fi.min, dtype=dt)).astype(dt)
+        else:
+            raise ValueError(pattern)
+    return a.reshape(nr, nc)
 
 
 def pixeltype(dt):
@@ -393,10 +478,11 @@ def check_io(ctx, Grid, case, tmpd):
         ctx.violation("grid.init:raised:%s" % type(e).__name__, case, "Grid(...) raised %r" % (e,))
         return
     ndkind = case.get("ndkind", "?")
+    lsfx = ":size-ladder" if "pattern" in case else ""
     if op == "load":
         src, route = case["source"], case["route"]
         bo = "M" if src == "rawM" else "I"
-        prefix = "grid.%s:byteorder=%s%s" % (route, bo, ":rawhdr" if src == "rawI" else "")
+        prefix = "grid.%s:byteorder=%s%s%s" % (route, bo, ":rawhdr" if src == "rawI" else "", lsfx)
         nt = (src != "rawM") or dt.itemsize > 1
         base = os.path.join(tmpd, "Gr_A")
         try:
@@ -431,7 +517,7 @@ def check_io(ctx, Grid, case, tmpd):
         if np.ascontiguousarray(g.data).tobytes() != cells.tobytes():
             ctx.violation("grid.save:source-changed", case, "saving changed the grid's own cells")
     elif op == "dict":
-        prefix = "grid.to_dict/from_dict"
+        prefix = "grid.to_dict/from_dict" + lsfx
         try:
             dic = g.to_dict()
             g2 = Grid.from_dict(dic)
@@ -446,7 +532,7 @@ def check_io(ctx, Grid, case, tmpd):
         how = case.get("how", "plain")
         if how == "catchment" and case["dtype"] != "int64":
             return          # a Catchment holds an int64 copy: identical cells only for int64 grids
-        prefix = "grid.clone" if how == "plain" else "grid.clone[%s]" % how
+        prefix = ("grid.clone" if how == "plain" else "grid.clone[%s]" % how) + lsfx
 
         def do_clone(gr):
             if how == "plain":
@@ -467,7 +553,10 @@ def check_io(ctx, Grid, case, tmpd):
         compare_meta(ctx, prefix, case, g2, nr, nc, csz, xll, yll, dt, nd, ndkind)
         compare_cells(ctx, prefix + ":values:dtype=%s" % dt.name, case, g2, cells, "clone")
         # independence: change every cell of the clone, then of the original
-        other = from_bits([b ^ 1 for b in case["bits"]], case["dtype"], (nr, nc))
+        if "bits" in case:
+            other = from_bits([b ^ 1 for b in case["bits"]], case["dtype"], (nr, nc))
+        else:
+            other = (np.ascontiguousarray(cells).view(udtype(case["dtype"])) ^ 1).view(dt).reshape(nr, nc)
         try:
             if np.shares_memory(g2.data, g.data):
                 ctx.violation(prefix + ":not-independent:shared-memory", case, "clone shares cell memory with the original")
@@ -713,7 +802,8 @@ def check_catch(ctx, gridmod, case):
     nr, nc = case["shape"]
     fd = Grid("Fd", nc, nr, dtype=np.int64, cellsize=case.get("cellsize", 1.0),
               xllcorner=case.get("xll", 0.0), yllcorner=case.get("yll", 0.0))
-    fd.data[...] = np.array(case["codes"], dtype=np.int64).reshape(nr, nc)
+    codes = case["codes"] if "codes" in case else flow_codes(nr, nc, case["flow"]["sink"], case["flow"]["pits"])
+    fd.data[...] = np.array(codes, dtype=np.int64).reshape(nr, nc)
     ca = Catchment("Ca", fd)
     inlets = case["inlets"]
     try:
@@ -743,6 +833,8 @@ def check_catch(ctx, gridmod, case):
         ctx.count("catch.area_with_holes")
     if len(area) > 1:
         ctx.count("catch.area_gt_1_cell")
+    if len(area) > 256:
+        ctx.count("catch.area_gt_256_cells")
     if out[0] != int(ca.idxcell_outlet):
         ctx.violation(prefix + ":outlet", case, "outlet %r, expected %r" % (out[0], int(ca.idxcell_outlet)))
     exp_in = None if ca.idxinlets is None else ints(np.atleast_1d(ca.idxinlets))
@@ -817,6 +909,344 @@ def run_catchring_unit(unit, ctx):
                     check_catch(ctx, gridmod, case)
 
 
+# --------------------------------------------------------------------- size ladder
+LADDER = [7, 8, 9, 15, 16, 17, 31, 32, 33, 63, 64, 65, 100, 127, 128, 129, 255, 256, 257, 500, 501, 511, 512, 513,
+          1000, 1001, 1023, 1024, 1025]
+LADDER_THOROUGH = [2047, 2048, 2049, 4095, 4096, 4097, 10001]
+SQUARES = [7, 8, 9, 15, 16, 17, 31, 32, 33, 63, 64, 65, 127, 128, 129, 255, 256, 257]
+SQUARES_THOROUGH = [511, 512, 513, 1023, 1024, 1025]
+LADDER_DTYPES = ["float64", "int16", "uint8", "float32", "int64", "uint64", "int32", "float16", "int8", "uint16", "uint32"]
+PATTERNS = ["ramp", "checker"]
+
+
+def ladder_shapes(tier):
+    """1xN and Nx1 strips (N up to 1025; thorough 10001), NxN and Nx(N+1) grids (N up to 257; thorough (N+1)xN and up to 1025)"""
+    sh = []
+    for n in LADDER + (LADDER_THOROUGH if tier != "quick" else []):
+        sh += [(1, n), (n, 1)]
+    for n in SQUARES + (SQUARES_THOROUGH if tier != "quick" else []):
+        sh += [(n, n), (n, n + 1)]
+        if tier != "quick":
+            sh.append((n + 1, n))
+    return sh
+
+
+def ladder_ops():
+    ops = [{"op": "load", "source": "save", "route": r} for r in ROUTES]
+    ops += [{"op": "load", "source": "rawM", "route": "from_header"}, {"op": "load", "source": "rawI", "route": "from_stream"}]
+    ops += [{"op": "dict"}, {"op": "clone"}, {"op": "clone", "how": "same-dtype"}, {"op": "clone", "how": "catchment"}]
+    return ops
+
+
+def _ro(a):
+    a = a.copy()
+    a.setflags(write=False)
+    return a
+
+
+def _strided(a):
+    big = np.zeros((2 * a.shape[0] + 1, 2 * a.shape[1] + 1), dtype=a.dtype)
+    big[1::2, 1::2] = a
+    return big[1::2, 1::2]
+
+
+def _wider(a):
+    k = a.dtype.kind
+    wide = {"i": np.int64, "u": np.uint64, "f": np.float64}[k]
+    return a.astype(wide)
+
+
+SETTER_LAYOUTS = [("fortran", np.asfortranarray), ("strided", _strided), ("readonly", _ro),
+                  ("reversed-twice", lambda a: a[::-1, ::-1][::-1, ::-1]), ("bigendian", lambda a: a.astype(a.dtype.newbyteorder(">"))),
+                  ("wider-dtype", _wider), ("nested-list", lambda a: a.tolist())]
+SETTER_LAYOUTS_D = dict(SETTER_LAYOUTS)
+
+
+def check_setter_layout(ctx, Grid, case, tmpd):
+    """case: kind io-layout, shape, dtype, pattern, nodata, geom, layout.  The same cells given to the public data
+    setter in another memory layout / container; the grid, its clone and its saved-and-loaded copy must hold the
+    bits of the grid filled from the C-contiguous array of the grid's own dtype"""
+    nr, nc = case["shape"]
+    dt = np.dtype(case["dtype"])
+    name = case["layout"]
+    try:
+        g, cells, nd = make_grid(Grid, case)
+        g.data = np.ascontiguousarray(cells)
+        ref = np.ascontiguousarray(g.data).tobytes()
+    except Exception:
+        ctx.count("layout.unjudged.reference_raised")
+        return
+    if name == "wider-dtype" and dt.itemsize == 8:
+        ctx.count("layout.unjudged.wider-dtype.no_wider_type")
+        return
+    if name == "nested-list":
+        # numpy's own reading of the nested list must reproduce the values (a list mixing small integers with
+        # integers beyond 2^63 is read as float64 by numpy itself: what the grid then holds is not judged)
+        with np.errstate(all="ignore"):
+            back = np.asarray(cells.tolist())
+            if back.dtype.kind != dt.kind or back.astype(dt).tobytes() != np.ascontiguousarray(cells).tobytes():
+                ctx.count("layout.unjudged.nested-list.numpy_reads_other_values")
+                return
+    g2, _, _ = make_grid(Grid, dict(case, pattern="checker" if case["pattern"] == "ramp" else "ramp"))
+    try:
+        g2.data = SETTER_LAYOUTS_D[name](cells)
+    except Exception:
+        ctx.case(True)
+        ctx.count("layout.rejected.data-setter.%s" % name)
+        return
+    ctx.case(True, outcome=np.ascontiguousarray(g2.data).tobytes()[:4096])
+    ok = True
+    if np.asarray(g2.data).dtype != dt or np.ascontiguousarray(g2.data).tobytes() != ref:
+        ok = False
+        ctx.violation("grid.data-setter:layout=%s" % name, case,
+                      "cells set from a %s array: the grid holds %s (dtype %s), from the C-contiguous array %s" % (
+                          name, fmt_cells(g2.data), np.asarray(g2.data).dtype, fmt_cells(cells)))
+    base = os.path.join(tmpd, "Gr_L")
+    try:
+        try:
+            g2.save(base + ".bil")
+            g3 = Grid.from_header(base + ".hdr")
+            g4 = g2.clone()
+        finally:
+            for ext in (".bil", ".hdr"):
+                try:
+                    os.remove(base + ext)
+                except OSError:
+                    pass
+    except Exception as e:
+        ctx.violation("grid.save/load:layout=%s:raised:%s" % (name, type(e).__name__), case, "raised %r" % (e,))
+        return
+    for what, gg in (("from_header", g3), ("clone", g4)):
+        same = (tuple(gg.data.shape) == (nr, nc) and np.asarray(gg.data).dtype == dt
+                and np.ascontiguousarray(gg.data).tobytes() == ref)
+        if not same:
+            ok = False
+            ctx.violation("grid.%s:layout=%s:values" % (what, name), case,
+                          "grid filled from a %s array, then %s: cells %s, expected %s" % (name, what, fmt_cells(gg.data), fmt_cells(cells)))
+    if ok:
+        ctx.count("layout.agree.%s" % name)
+
+
+def run_io_ladder_unit(unit, ctx, tmpd):
+    from hydrodiy.gis.grid import Grid
+    nr, nc = unit["shape"]
+    seed = unit["seed"]
+    first = True
+    for k, dtn in enumerate(unit["dtypes"]):
+        nds = nodata_alphabet(dtn)
+        geoms = io_geoms(seed)
+        for pi, pattern in enumerate(PATTERNS):
+            ndkind, ndbits = nds[(unit["index"] + k + pi) % len(nds)]
+            geom = geoms[(unit["index"] + pi) % len(geoms)]
+            base = {"kind": "io", "shape": [nr, nc], "dtype": dtn, "pattern": pattern, "nodata": ndbits,
+                    "ndkind": ndkind, "geom": list(geom)}
+            for op in ladder_ops():
+                case = dict(base, **op)
+                if first:
+                    ctx.case(False, sample=case, n=0)
+                    first = False
+                ctx.count("ladder.io_cases")
+                check_io(ctx, Grid, case, tmpd)
+            if pattern == "ramp":
+                for name, _ in SETTER_LAYOUTS:
+                    check_setter_layout(ctx, Grid, dict(base, kind="io-layout", layout=name), tmpd)
+
+
+# ---- clip on large grids: same meaning as check_clip, compared as whole windows
+def clip_boxes(nr, nc):
+    """structured (lower-left cell, upper-right cell) pairs: whole grid, inner frame, corner cells, halves, a window
+    across the middle, a window ending next to the last row / column"""
+    b = [((nr - 1, 0), (0, nc - 1)),
+         ((max(nr - 2, 0), min(1, nc - 1)), (min(1, nr - 1), max(nc - 2, 0))),
+         ((0, 0), (0, 0)), ((nr - 1, nc - 1), (nr - 1, nc - 1)), ((nr - 1, 0), (nr - 1, 0)),
+         ((nr - 1, 0), (0, max(nc // 2 - 1, 0))), ((nr - 1, nc // 2), (0, nc - 1)),
+         ((nr - 1, 0), (nr // 2, nc - 1)), ((max(nr // 2 - 1, 0), 0), (0, nc - 1)),
+         ((min(nr - 1, nr // 2 + 1), max(nc // 2 - 1, 0)), (max(nr // 2 - 1, 0), min(nc - 1, nc // 2 + 1))),
+         ((max(nr - 2, 0), 0), (0, max(nc - 2, 0)))]
+    out = []
+    for ll, ur in b:
+        if ll[0] >= ur[0] and ll[1] <= ur[1] and (ll, ur) not in out:
+            out.append((ll, ur))
+    return out
+
+
+def check_clip_big(ctx, Grid, case):
+    """case: kind clip-big, shape, dtype, pattern, nodata, geom, ll [row, col], ur [row, col], offset.
+    Same demands as check_clip; the comparison uses that all clipped centres share one fractional offset from the
+    parent centres when the cell size is unchanged (exact Fractions for the first cell, array comparison for the rest)."""
+    nr, nc = case["shape"]
+    dt = np.dtype(case["dtype"])
+    csz, xll, yll = case["geom"]
+    try:
+        g, cells, nd = make_grid(Grid, case)
+    except Exception as e:
+        ctx.case(True)
+        ctx.violation("grid.init:raised:%s" % type(e).__name__, case, "Grid(...) raised %r" % (e,))
+        return
+    (r0, c0), (r1, c1) = case["ll"], case["ur"]
+    off = OFFSETS[case["offset"]] * Fraction(csz)
+    ex0 = exact_centre(xll, yll, csz, nr, r0, c0)
+    ex1 = exact_centre(xll, yll, csz, nr, r1, c1)
+    pts = [float(ex0[0] + off), float(ex0[1] + off), float(ex1[0] + off), float(ex1[1] + off)]
+    q = Fraction(csz) * Fraction(3, 8)
+    for p, e in zip(pts, [ex0[0], ex0[1], ex1[0], ex1[1]]):
+        if abs(Fraction(p) - e) > q:
+            ctx.count("unjudged.clip.corner_not_resolvable")
+            return
+    prefix = "grid.clip"
+    sfx = ":size-ladder"
+    try:
+        g2 = g.clip(*pts)
+    except Exception as e:
+        ctx.case(True)
+        ctx.violation(prefix + ":raised:%s" % type(e).__name__ + sfx, case, "clip%r raised %r" % (tuple(pts), e))
+        return
+    if np.ascontiguousarray(g.data).tobytes() != cells.tobytes():
+        ctx.violation(prefix + ":parent-changed" + sfx, case, "clip changed the parent's cells")
+    try:
+        cz2, x2, y2 = float(g2.cellsize), float(g2.xllcorner), float(g2.yllcorner)
+        d2 = np.asarray(g2.data)
+        n2r, n2c = d2.shape
+    except Exception as e:
+        ctx.case(True)
+        ctx.violation(prefix + ":result-unreadable" + sfx, case, repr(e))
+        return
+    tol = Fraction(csz) / 1000
+    fx, fy, fc = Fraction(xll), Fraction(yll), Fraction(csz)
+    mrows = mcols = range(0)          # parent rows / columns that have a coinciding clipped cell
+    ncmp = 0
+    bad = None
+    if not (cz2 > 0 and math.isfinite(cz2) and math.isfinite(x2) and math.isfinite(y2)):
+        pass
+    elif Fraction(cz2) != fc:
+        ctx.count("unjudged.clip.cellsize_changed")
+    else:
+        cx, cy = exact_centre(x2, y2, cz2, n2r, 0, 0)
+        jp = (cx - fx) / fc - Fraction(1, 2)
+        ip = (cy - fy) / fc - Fraction(1, 2)
+        jr, ir = round(jp), round(ip)
+        if abs(jp - jr) * fc > tol or abs(ip - ir) * fc > tol:
+            ctx.count("unjudged.clip.centre_not_coinciding", n2r * n2c)
+        else:
+            prow0, pcol0 = nr - 1 - ir, jr          # parent row / column of clipped cell (0, 0)
+            i_lo, i_hi = max(0, -prow0), min(n2r, nr - prow0)
+            j_lo, j_hi = max(0, -pcol0), min(n2c, nc - pcol0)
+            nout = n2r * n2c - max(0, i_hi - i_lo) * max(0, j_hi - j_lo)
+            if nout:
+                ctx.count("unjudged.clip.cell_outside_parent", nout)
+            if i_hi > i_lo and j_hi > j_lo:
+                a = d2[i_lo:i_hi, j_lo:j_hi]
+                b = cells[prow0 + i_lo:prow0 + i_hi, pcol0 + j_lo:pcol0 + j_hi]
+                mrows = range(prow0 + i_lo, prow0 + i_hi)
+                mcols = range(pcol0 + j_lo, pcol0 + j_hi)
+                ncmp = a.size
+                if a.dtype == b.dtype:
+                    ne = a != b
+                    if dt.kind == "f":
+                        ne &= ~(np.isnan(a) & np.isnan(b))
+                    if ne.any():
+                        i, j = [int(v[0]) for v in np.nonzero(ne)]
+                        bad = (i + i_lo, j + j_lo, prow0 + i_lo + i, pcol0 + j_lo + j)
+                else:
+                    for (i, j), va in np.ndenumerate(a):
+                        if not vals_equal(va, b[i, j]):
+                            bad = (i + i_lo, j + j_lo, prow0 + i_lo + i, pcol0 + j_lo + j)
+                            break
+    ctx.case(ncmp > 0, outcome=np.ascontiguousarray(d2).tobytes()[:4096] + repr((n2r, n2c)).encode())
+    ctx.count("clip.cells_compared", ncmp)
+    ctx.count("ladder.clip_cases")
+    if bad is not None:
+        i, j, prow, pcol = bad
+        ctx.violation(prefix + ":values:dtype=%s" % dt.name + sfx, case,
+                      "clip%r of a %dx%d grid: cell (%d,%d) = %r but the parent cell (%d,%d) with the same centre holds %r" % (
+                          tuple(pts), nr, nc, i, j, pyval(d2[i, j]), prow, pcol, pyval(cells[prow, pcol])),
+                      observed=repr(pyval(d2[i, j])), expected=repr(pyval(cells[prow, pcol])))
+    # coverage of the box: parent rows / columns whose centre lies in the closed box (exact, per axis)
+    bx0, by0, bx1, by1 = [Fraction(p) for p in pts]
+    cols_in = [j for j in range(max(0, c0 - 2), min(nc, c1 + 3))
+               if bx0 <= fx + (Fraction(j) + Fraction(1, 2)) * fc <= bx1]
+    rows_in = [i for i in range(max(0, r1 - 2), min(nr, r0 + 3))
+               if by0 <= fy + (Fraction(nr - 1 - i) + Fraction(1, 2)) * fc <= by1]
+    mr = [i for i in rows_in if i not in mrows]
+    mc = [j for j in cols_in if j not in mcols]
+    if rows_in and cols_in and (mr or mc):
+        ctx.violation(prefix + ":box-not-covered" + sfx, case,
+                      "clip%r of a %dx%d grid: parent rows %r / columns %r have their centres inside the box but no coinciding "
+                      "cell in the clipped grid (shape %r, xll %r, yll %r, cellsize %r)" % (
+                          tuple(pts), nr, nc, mr[:6], mc[:6], (n2r, n2c), x2, y2, cz2))
+    if (n2r, n2c) != (r0 - r1 + 1, c1 - c0 + 1):
+        ctx.count("unjudged.clip.shape_differs_from_cell_box")
+
+
+CLIP_LADDER = [(1, 16), (17, 1), (1, 257), (256, 1), (1, 1025), (1024, 1), (16, 16), (17, 17), (64, 65), (65, 64),
+               (256, 256), (257, 257), (255, 258)]
+CLIP_LADDER_THOROUGH = [(1, 4097), (4096, 1), (512, 513), (1025, 1025), (33, 1000)]
+CLIP_GEOMS = [(1.0, 0.0, 0.0), (0.1, 1.0 / 3, -123456.789012345), (2.0 ** -20, 112.0, -44.5)]
+
+
+def run_clip_ladder_unit(unit, ctx):
+    from hydrodiy.gis.grid import Grid
+    nr, nc = unit["shape"]
+    first = True
+    for k, dtn in enumerate(unit["dtypes"]):
+        nds = nodata_alphabet(dtn)
+        for gi, geom in enumerate(CLIP_GEOMS):
+            if not resolvable(geom[0], geom[1], geom[2], nr, nc):
+                ctx.count("clip.geometry_unresolvable_skipped")
+                continue
+            ndkind, ndbits = nds[(gi + k) % len(nds)]
+            pattern = PATTERNS[(gi + k) % 2] if gi else "ramp"
+            for ll, ur in clip_boxes(nr, nc):
+                for off in ("centre", "minus", "plus"):
+                    case = {"kind": "clip-big", "shape": [nr, nc], "dtype": dtn, "pattern": pattern, "nodata": ndbits,
+                            "ndkind": ndkind, "geom": list(geom), "ll": list(ll), "ur": list(ur), "offset": off}
+                    if first:
+                        ctx.case(False, sample=case, n=0)
+                        first = False
+                    check_clip_big(ctx, Grid, case)
+
+
+# ---- catchment dictionary round trip on larger delineated areas
+def flow_codes(nr, nc, sink, pits):
+    """flow directions converging on sink (row, col); pits get code 0"""
+    from hydrodiy.gis.grid import FLOWDIRCODE
+    r, c = np.meshgrid(np.arange(nr), np.arange(nc), indexing="ij")
+    dr = np.sign(sink[0] - r)
+    dc = np.sign(sink[1] - c)
+    fd = np.asarray(FLOWDIRCODE)[1 + dr, 1 + dc].astype(np.int64)
+    for p in pits:
+        fd[p[0], p[1]] = 0
+    return [int(v) for v in fd.ravel()]
+
+
+CATCH_LADDER = [(16, 16), (17, 17), (33, 32), (64, 64), (65, 65), (128, 129), (1, 1025), (257, 1)]
+CATCH_LADDER_THOROUGH = [(257, 257), (300, 301), (1, 10001)]
+
+
+def run_catch_ladder_unit(unit, ctx):
+    from hydrodiy.gis import grid as gridmod
+    nr, nc = unit["shape"]
+    n = nr * nc
+    sinks = [(nr // 2, nc // 2), (nr - 1, 0), (0, nc - 1)]
+    first = True
+    for si, sink in enumerate(sinks):
+        # pits: isolated cells (holes in the area when nr, nc >= 3: the filled area differs) and none
+        pitsets = [[], [(max(sink[0] - 2, 0), max(sink[1] - 2, 0)), (min(sink[0] + 3, nr - 1), min(sink[1] + 1, nc - 1))]]
+        for pits in pitsets:
+            pits = [p for p in pits if p != sink]
+            so = sink[0] * nc + sink[1]
+            outlets = sorted(set([so, (so + 1) % n, (so + nc) % n, 0, n - 1]))
+            for outlet in outlets:
+                for inl in (None, [], [(outlet + 1) % n], [(outlet + 2) % n, (outlet + nc + 1) % n], [0, n - 1, n // 2]):
+                    case = {"kind": "catch", "shape": [nr, nc], "flow": {"sink": list(sink), "pits": [list(p) for p in pits]},
+                            "outlet": outlet, "inlets": inl, "cellsize": 0.05, "xll": 112.0, "yll": -44.5}
+                    if first:
+                        ctx.case(False, sample=case, n=0)
+                        first = False
+                    ctx.count("ladder.catch_cases")
+                    check_catch(ctx, gridmod, case)
+
+
 # --------------------------------------------------------------------- dispatch
 def run_unit(unit, ctx):
     k = unit["kind"]
@@ -835,6 +1265,16 @@ def run_unit(unit, ctx):
         run_catch_unit(unit, ctx)
     elif k == "catchring":
         run_catchring_unit(unit, ctx)
+    elif k == "io-ladder":
+        tmpd = tempfile.mkdtemp(prefix="verif-c13-")
+        try:
+            run_io_ladder_unit(unit, ctx, tmpd)
+        finally:
+            shutil.rmtree(tmpd, ignore_errors=True)
+    elif k == "clip-ladder":
+        run_clip_ladder_unit(unit, ctx)
+    elif k == "catch-ladder":
+        run_catch_ladder_unit(unit, ctx)
 
 
 def replay(case):
@@ -848,8 +1288,16 @@ def replay(case):
             check_io(ctx, gridmod.Grid, case, tmpd)
         finally:
             shutil.rmtree(tmpd, ignore_errors=True)
+    elif k == "io-layout":
+        tmpd = tempfile.mkdtemp(prefix="verif-c13-")
+        try:
+            check_setter_layout(ctx, gridmod.Grid, case, tmpd)
+        finally:
+            shutil.rmtree(tmpd, ignore_errors=True)
     elif k == "clip":
         check_clip(ctx, gridmod.Grid, case)
+    elif k == "clip-big":
+        check_clip_big(ctx, gridmod.Grid, case)
     elif k == "catch":
         check_catch(ctx, gridmod, case)
     return [v for lst in ctx.violations.values() for v in lst]
